@@ -15,6 +15,7 @@ from ..harness import AsyncScriptTransport, canon_nodes
 
 MOD = __name__
 PATH = pers.PATH
+BYS_PATH = fsshim.ROOT + "q.json"
 MAX_CLOCK = 3
 INTERVAL = 900  # "at least every 15 minutes"
 
@@ -58,19 +59,55 @@ class Scenario:
         self.saves_done_at_quiescent_exit = None
         self.result = None
         self.nontrivial = False
+        self.bys = None
+        self.log_mark = 0
+        self.preexisting: set = set()
+        if cfg.get("earlier") == "immediate":
+            # the same gateway object was entered and left once before, the body leaving at once (the saver of
+            # that context never got to run)
+            async def first():
+                async with self.gw:
+                    pass
+
+            t0 = fsshim.run_to_completion(loop, first())
+            self._drain()
+            if t0.exception() is not None:
+                raise core.HarnessError(f"earlier context failed: {t0.exception()!r}")
+            self.t.calls.clear()
+        if cfg.get("bystander"):
+            # a second gateway of the same process, with its own transport and file, is inside its context already
+            self.bys = Gateway(AsyncScriptTransport(loop), Config(persistence_file=BYS_PATH))
+            self.bys.nodes[50] = Node(50, 17, "2.0")
+            t0 = fsshim.run_to_completion(loop, self.bys.__aenter__())
+            self._drain()
+            if t0.exception() is not None:
+                raise core.HarnessError(f"bystander failed to enter: {t0.exception()!r}")
+            self.preexisting = {t for t in loop.tasks() if not t.done()}
         self.left_at_exit = None
         self.overtaken: set[int] = set()
         self._keep: list = []  # keeps overtaken jobs alive so their id() stays unique
         self.main = loop.create_task(self._main())
         self.main.add_done_callback(self._on_main_done)
 
+    def _drain(self) -> None:
+        """Run everything that can run without a timer (ready handles, executor jobs in submission order)."""
+        for _ in range(10000):
+            if self.loop.ready_count():
+                self.loop.step()
+            elif self.loop.pending_jobs():
+                self.loop.run_job(self.loop.pending_jobs()[0])
+            else:
+                return
+        raise core.HarnessError("drain does not terminate")
+
     def _on_main_done(self, _task) -> None:
         # what is still running at the moment the context has been left
         self.left_at_exit = sorted(
-            getattr(t.get_coro(), "__qualname__", repr(t)) for t in self.loop.tasks() if not t.done() and t is not self.main
+            getattr(t.get_coro(), "__qualname__", repr(t)) for t in self.loop.tasks() if not t.done() and t is not self.main and t not in self.preexisting
         )
 
     async def _main(self):
+        self.log_mark = len(self.vfs.log)  # file operations of THIS context start here
         try:
             async with self.gw as gw:
                 self.entered = True
@@ -114,7 +151,7 @@ class Scenario:
                     evs.append("job2")
         if not self.exit_fired:
             evs.append("exit")
-        if self.clock_fires < MAX_CLOCK and self.loop.next_timer() is not None and not self.main.done():
+        if self.clock_fires < self.cfg.get("max_clock", MAX_CLOCK) and self.loop.next_timer() is not None and not self.main.done():
             evs.append("clock")
         evs += transport_events(self)
         return evs
@@ -157,16 +194,16 @@ class Scenario:
     @staticmethod
     def _is_write_open(op) -> bool:
         # a save may write the file itself or a sibling it later renames onto it (atomic replace)
-        return op[0] == "open" and op[1].startswith(PATH) and any(c in op[2] for c in "wax+")
+        return op[0] == "open" and op[1].startswith(PATH) and not op[1].startswith(BYS_PATH) and any(c in op[2] for c in "wax+")
 
     def save_starts(self) -> list:
-        return [t for op, t in zip(self.vfs.log, self.vfs.log.times) if self._is_write_open(op)]
+        return [t for op, t in list(zip(self.vfs.log, self.vfs.log.times))[self.log_mark:] if self._is_write_open(op)]
 
     def saves_completed(self) -> int:
         """A save is complete when the file it wrote directly is closed, or when a sibling is renamed onto it."""
         n = 0
         open_w: set[str] = set()
-        for op in self.vfs.log:
+        for op in list(self.vfs.log)[self.log_mark:]:
             if self._is_write_open(op):
                 open_w.add(op[1])
             elif op[0] == "open":
@@ -242,6 +279,26 @@ class Scenario:
             # leftovers
             if self.left_at_exit:
                 bad("task-left-running", f"background tasks still running when the context had been left: {self.left_at_exit}")
+            if self.bys is not None:
+                # the other gateway is still inside its context: its periodic saves must go on
+                def bys_saves():
+                    return sum(1 for op in self.vfs.log if op[0] == "open" and op[1].startswith(BYS_PATH) and any(c in op[2] for c in "wax+"))
+
+                with fsshim.installed(self.vfs):
+                    self.bys.nodes[51] = Node(51, 17, "2.0")
+                    self._drain()
+                    n0 = bys_saves()
+                    t_before = self.loop.time()
+                    for _ in range(2):
+                        if self.loop.next_timer() is not None:
+                            self.loop.advance()
+                        self._drain()
+                    if bys_saves() == n0:
+                        bad("bystander-saver-stopped", f"another gateway of the process, still inside its context, made no save during {self.loop.time() - t_before:.0f} virtual seconds after this one left")
+                    t0 = fsshim.run_to_completion(self.loop, self.bys.__aexit__(None, None, None))
+                    self._drain()
+                    if t0.exception() is not None:
+                        bad(f"bystander-exit-raised:{type(t0.exception()).__name__}", f"the other gateway's exit raised {t0.exception()!r}")
             left = [t for t in self.loop.tasks() if not t.done()]
             if left:
                 names = sorted(getattr(t.get_coro(), "__qualname__", repr(t)) for t in left)
@@ -382,13 +439,24 @@ def configs(ctx: core.Ctx) -> list:
     for kind in ("tcp", "serial"):
         for body in ("return", "raise"):
             out.append({"body": body, "connect": "ok", "disconnect": "ok", "file": "present", "transport": kind, "body_read": "eof"})
+    # the same gateway object is entered a second time; another gateway is inside its own context meanwhile
+    out.append({"body": "return", "connect": "ok", "disconnect": "ok", "file": "present", "transport": "script", "earlier": "immediate"})
+    out.append({"body": "raise", "connect": "ok", "disconnect": "ok", "file": "missing", "transport": "script", "earlier": "immediate"})
+    out.append({"body": "return", "connect": "ok", "disconnect": "ok", "file": "present", "transport": "script", "bystander": True, "max_clock": 1})
+    out.append({"body": "return", "connect": "fail", "disconnect": "ok", "file": "present", "transport": "script", "bystander": True, "max_clock": 1})
     return out
 
 
 def run(ctx: core.Ctx) -> core.Report:
     K = 2 if ctx.quick else 99
     cfgs = configs(ctx)
-    res = explore.explore(ctx, MOD, [c for c in cfgs if c["transport"] == "script"], K)
+    res = explore.explore(ctx, MOD, [c for c in cfgs if c["transport"] == "script" and not c.get("bystander")], K)
+    # with a second gateway inside its own context (two savers): all orders at quiescent points, no early firings
+    resb = explore.explore(ctx, MOD, [c for c in cfgs if c.get("bystander")], 0 if ctx.quick else 1)
+    for k in ("executions", "nontrivial", "hangs"):
+        res[k] += resb[k]
+    res["distinct_outcomes"] += resb["distinct_outcomes"]
+    res["violations"] += resb["violations"]
     # built-in transports: same scenario through the real TCP/serial/MQTT classes (quick: at most 1 early firing)
     K2 = 1 if ctx.quick else 3
     res2 = explore.explore(ctx, MOD, [c for c in cfgs if c["transport"] != "script"], K2)
